@@ -119,6 +119,33 @@ def run(kind="seeded", only=None, props=None, jobs=4, repo="/repo", own_only=Fal
     return out
 
 
+def for_property(prop, jobs=6):
+    """Self-test summary for one property (thorough tier): its seeded and own
+    mutants must make its check fire; all benign variants must leave it silent."""
+    out = {"detected": [], "missed": [], "skipped": [], "benign_silent": [], "benign_false_alarm": []}
+    for kind in ("seeded", "own"):
+        names = [n for (n, d, meta) in list_seeds(kind) if meta.get("property") == prop]
+        if not names:
+            continue
+        for r in run(kind, only=names, props=[prop], jobs=jobs):
+            if r["status"] != "ran":
+                out["skipped"].append({"name": r["name"], "reason": r.get("reason")})
+            elif prop in r["fired"]:
+                out["detected"].append({"name": r["name"], "kind": kind, "keys": r["keys"].get(prop, [])[:3]})
+            else:
+                out["missed"].append({"name": r["name"], "kind": kind, "infra": r["infra"]})
+    for r in run("benign", props=[prop], jobs=jobs):
+        if r["status"] != "ran":
+            out["skipped"].append({"name": r["name"], "reason": r.get("reason")})
+        elif r["fired"]:
+            out["benign_false_alarm"].append({"name": r["name"], "keys": r["keys"]})
+        else:
+            out["benign_silent"].append(r["name"])
+    out["summary"] = "%d seeded/own changes detected, %d missed, %d benign variants silent, %d benign false alarms" % (
+        len(out["detected"]), len(out["missed"]), len(out["benign_silent"]), len(out["benign_false_alarm"]))
+    return out
+
+
 def main():
     ap = argparse.ArgumentParser()
     ap.add_argument("cmd", choices=["seeded", "own", "benign"])
